@@ -45,7 +45,7 @@ def run(rep, tier, seed):
         # corpus first: hand-written programs pinning documented rules at their edges
         from xform import load_module, arg_kinds, gen_inputs
         corp = load_module(os.path.join(os.path.dirname(__file__), 'corpus', 'c04_corpus.py'), 'fpyverif_C04_corpus')
-        CORPUS_REALS = [1.5, 0.1, 3.0, 2.0, 2.0 ** 11, 2.0 ** -30, 100.0, -7.0, 4.0, 1.0, 5.0, float('inf'), -0.0]
+        CORPUS_REALS = [1.5, 0.1, 3.0, 2.0, 2.0 ** 11, 2.0 ** -30, 100.0, -7.0, 4.0, 1.0, 5.0, float('inf'), -0.0, 0.0, -0.0]
         for fn in corp.ALL:
             try:
                 entry, prog = export_program(fn)
